@@ -108,6 +108,7 @@ type Event struct {
 	Op   string `json:"op"`             // change connect close sub unsub updated list read quiesce
 	Kind int    `json:"kind,omitempty"` // change/list: 0 tool 1 prompt 2 resource 3 resource template
 	Rm   bool   `json:"rm,omitempty"`   // change: remove instead of add/replace
+	Also []int  `json:"also,omitempty"` // change with rm: further names given to the same Remove call, after Name (3: a name never registered)
 	Name int    `json:"name,omitempty"` // feature / uri index 0..2
 	Sess int    `json:"sess,omitempty"` // session slot
 	Bump bool   `json:"bump,omitempty"` // updated: the resource content really changed before ResourceUpdated
@@ -193,6 +194,9 @@ func gen(rt *rapid.T) Script {
 		case "change":
 			ev.Rm = rapid.IntRange(0, 9).Draw(rt, "rm") < 4
 			ev.Name = rapid.IntRange(0, 2).Draw(rt, "name")
+			if ev.Rm && rapid.IntRange(0, 9).Draw(rt, "multi") < 3 {
+				ev.Also = rapid.SliceOfN(rapid.SampledFrom([]int{0, 1, 2, 3, 3}), 1, 2).Draw(rt, "also")
+			}
 		case "sub", "unsub", "read":
 			ev.Name = rapid.SampledFrom(uriBias).Draw(rt, "uri")
 		case "updated":
@@ -485,18 +489,22 @@ func runInBubble(s Script) (res vt.Result) {
 		w.mu.Unlock()
 		return &mcp.ReadResourceResult{Contents: []*mcp.ResourceContents{{URI: req.Params.URI, Text: "v" + strconv.Itoa(v)}}}, nil
 	}
-	apply := func(kind, n int, rm bool) {
+	apply := func(kind, n int, rm bool, also []int) {
 		name := nameOf(kind, n)
 		if rm {
+			names := []string{name}
+			for _, a := range also {
+				names = append(names, nameOf(kind, a))
+			}
 			switch kind {
 			case kTool:
-				server.RemoveTools(name)
+				server.RemoveTools(names...)
 			case kPrompt:
-				server.RemovePrompts(name)
+				server.RemovePrompts(names...)
 			case kRes:
-				server.RemoveResources(name)
+				server.RemoveResources(names...)
 			case kTmpl:
-				server.RemoveResourceTemplates(name)
+				server.RemoveResourceTemplates(names...)
 			}
 			return
 		}
@@ -523,7 +531,7 @@ func runInBubble(s Script) (res vt.Result) {
 		st := map[string]int{}
 		for _, n := range s.Init[k] {
 			n = ((n % 3) + 3) % 3
-			apply(k, n, false)
+			apply(k, n, false, nil)
 			st[nameOf(k, n)] = verCounter
 		}
 		states[k] = []map[string]int{st}
@@ -808,7 +816,7 @@ func runInBubble(s Script) (res vt.Result) {
 		si := ((ev.Sess % len(slots)) + len(slots)) % len(slots)
 		if ev.Op == "connect" && slots[si].spec.SlowConnect {
 			events = append(events, Event{Dt: ev.Dt, Op: "sconnect", Sess: ev.Sess},
-				Event{Dt: int64(time.Millisecond), Op: "change", Kind: ev.Kind, Name: ev.Name, Rm: ev.Rm},
+				Event{Dt: int64(time.Millisecond), Op: "change", Kind: ev.Kind, Name: ev.Name, Rm: ev.Rm, Also: ev.Also},
 				Event{Dt: int64(15 * time.Millisecond), Op: "cconnect", Sess: ev.Sess})
 			continue
 		}
@@ -830,6 +838,14 @@ func runInBubble(s Script) (res vt.Result) {
 		case "change":
 			nk := nkOf(kind)
 			_, had := cur(kind)[nameOf(kind, name)]
+			for _, a := range ev.Also {
+				if _, h := cur(kind)[nameOf(kind, a)]; h {
+					had = true
+				}
+			}
+			if len(ev.Also) > 0 {
+				res.Class("remove_call_naming_several_features")
+			}
 			eff := !ev.Rm || had
 			if eff && capOf(nk) != "off" && lastEff[nk].ok {
 				if d := now - lastEff[nk].at; d >= debounce-1 && d <= debounce+1 {
@@ -837,11 +853,14 @@ func runInBubble(s Script) (res vt.Result) {
 				}
 			}
 			b := w.tick()
-			apply(kind, name, ev.Rm)
+			apply(kind, name, ev.Rm, ev.Also)
 			e := w.tick()
 			next := maps.Clone(cur(kind))
 			if ev.Rm {
 				delete(next, nameOf(kind, name))
+				for _, a := range ev.Also {
+					delete(next, nameOf(kind, a))
+				}
 			} else {
 				next[nameOf(kind, name)] = verCounter
 			}
